@@ -2,8 +2,10 @@
    A. heap blocks and the 2-bit records          B. evaluation of prefix code (iffeature_eval_prefix_correct)
    C. reading the string                         D. pre-pass = fold over items = fold over tokens
    E. main pass = token machine (simulation)     F. counting invariant of the token machine
-   G/H. lys_compile_iffeature never leaves its arrays under three side conditions (no_oob_partial)
-   I/J. RFC 7950 grammar: shunting yard correctness (iffeature_correct_partial), refutations *)
+   G/H. lys_compile_iffeature never leaves its arrays, for every string (compile_no_oob)
+   I/J. RFC 7950 grammar: shunting yard correctness (compile_grammar)
+   The model transcribes the code after the fixes of /repo commits 299b7de, 6f66310, 685c1af; the three
+   side conditions (and the refutation witnesses) of the earlier version of this file are gone. *)
 From LY Require Import Base IfFeature.
 From LY.Gen Require Consts.
 From Coq Require Import ZifyBool ZifyNat ZifyN.
@@ -512,8 +514,10 @@ Definition a_bump (a : pa) : pa :=
 Fixpoint pre_items (its : list item) (a : pa) : ires pa :=
   match its with
   | [] => IOk a
-  | ILP :: r => pre_items r {| a_j := a_j a + 1; a_ln := a_ln a; a_cv := true; a_f := a_f a; a_e := a_e a; a_fexp := a_fexp a |}
-  | IRP :: r => pre_items r {| a_j := a_j a - 1; a_ln := a_ln a; a_cv := a_cv a; a_f := a_f a; a_e := a_e a; a_fexp := a_fexp a |}
+  | ILP :: r => pre_items r {| a_j := a_j a + 1; a_ln := false; a_cv := true; a_f := a_f a; a_e := a_e a; a_fexp := a_fexp a |}
+  | IRP :: r =>
+      if (a_j a - 1 <? 0)%Z then IErr E_PAREN else
+      pre_items r {| a_j := a_j a - 1; a_ln := false; a_cv := a_cv a; a_f := a_f a; a_e := a_e a; a_fexp := a_fexp a |}
   | ISP _ :: r => pre_items r {| a_j := a_j a; a_ln := a_ln a; a_cv := true; a_f := a_f a; a_e := a_e a; a_fexp := a_fexp a |}
   | IW w :: r =>
       let* a1 := pre_word_abs w r a in
@@ -704,13 +708,14 @@ Proof.
     + cbn [pre_loop p_i mk_pre]. cbn [flatten flat_map item_bytes app].
       rewrite rdc_hd. cbn [ibind hd N.eqb Pos.eqb].
       fold (flatten r).
-      specialize (IHr (P ++ [40]) {| a_j := a_j a + 1; a_ln := a_ln a; a_cv := true; a_f := a_f a; a_e := a_e a; a_fexp := a_fexp a |}).
+      specialize (IHr (P ++ [40]) {| a_j := a_j a + 1; a_ln := false; a_cv := true; a_f := a_f a; a_e := a_e a; a_fexp := a_fexp a |}).
       rewrite <- !app_cons_assoc in IHr. rewrite len_snoc in IHr. cbn [pre_items]. rewrite <- IHr by reflexivity. reflexivity.
     + cbn [pre_loop p_i mk_pre]. cbn [flatten flat_map item_bytes app].
       rewrite rdc_hd. cbn [ibind hd N.eqb Pos.eqb].
-      fold (flatten r).
-      specialize (IHr (P ++ [41]) {| a_j := a_j a - 1; a_ln := a_ln a; a_cv := a_cv a; a_f := a_f a; a_e := a_e a; a_fexp := a_fexp a |}).
-      rewrite <- !app_cons_assoc in IHr. rewrite len_snoc in IHr. cbn [pre_items]. rewrite <- IHr by reflexivity. reflexivity.
+      fold (flatten r). cbn [p_j mk_pre pre_items].
+      destruct (a_j a - 1 <? 0)%Z; [reflexivity|].
+      specialize (IHr (P ++ [41]) {| a_j := a_j a - 1; a_ln := false; a_cv := a_cv a; a_f := a_f a; a_e := a_e a; a_fexp := a_fexp a |}).
+      rewrite <- !app_cons_assoc in IHr. rewrite len_snoc in IHr. rewrite <- IHr by reflexivity. reflexivity.
     + destruct Hn as (Hc & _ & Hr). cbn in Hc. pose proof (cspace_nonzero _ Hc) as Hc0.
       assert (c <> 40 /\ c <> 41) as [Hc40 Hc41] by (unfold is_cspace in Hc; lia).
       cbn [pre_loop p_i mk_pre]. cbn [flatten flat_map item_bytes app].
@@ -809,8 +814,9 @@ Record zst := { z_j : Z; z_ln : bool; z_f : Z; z_e : Z; z_fexp : Z }.
 
 Definition zpre_tok (t : tok) (z : zst) : option zst :=
   match t with
-  | TLP => Some {| z_j := z_j z + 1; z_ln := z_ln z; z_f := z_f z; z_e := z_e z; z_fexp := z_fexp z |}
-  | TRP => Some {| z_j := z_j z - 1; z_ln := z_ln z; z_f := z_f z; z_e := z_e z; z_fexp := z_fexp z |}
+  | TLP => Some {| z_j := z_j z + 1; z_ln := false; z_f := z_f z; z_e := z_e z; z_fexp := z_fexp z |}
+  | TRP => if (z_j z - 1 <? 0)%Z then None
+           else Some {| z_j := z_j z - 1; z_ln := false; z_f := z_f z; z_e := z_e z; z_fexp := z_fexp z |}
   | TF _ => Some {| z_j := z_j z; z_ln := false; z_f := z_f z + 1; z_e := z_e z + 1; z_fexp := z_fexp z |}
   | TNOT => if z_ln z
             then Some {| z_j := z_j z; z_ln := false; z_f := z_f z; z_e := z_e z - 1; z_fexp := z_fexp z |}
@@ -884,11 +890,12 @@ Qed.
 
 (* pre_items never reports an out-of-bounds access; its verdict is that of zpre, plus the
    `unexpected end` rule for a trailing bare keyword *)
+Definition pre_err (e : N) : Prop := e = E_END \/ e = E_MISSING \/ e = E_PAREN.
 Lemma pre_items_zpre : forall n its, length its = n -> forall a z,
   normal its -> Rz a z -> WFz z (length its) ->
   match zpre (toks its) z, trailing_kw its with
   | Some z', false => exists a', pre_items its a = IOk a' /\ Rz a' z' /\ WFz z' 0
-  | _, _ => exists e, pre_items its a = IErr e /\ (e = E_END \/ e = E_MISSING)
+  | _, _ => exists e, pre_items its a = IErr e /\ pre_err e
   end.
 Proof.
   induction n as [n IH] using lt_wf_ind. intros its Hlen a z Hn HR HW.
@@ -897,7 +904,7 @@ Proof.
   - assert (IHr : forall a1 z1, Rz a1 z1 -> WFz z1 (length r) ->
        match zpre (toks r) z1, trailing_kw r with
        | Some z', false => exists a', pre_items r a1 = IOk a' /\ Rz a' z' /\ WFz z' 0
-       | _, _ => exists e, pre_items r a1 = IErr e /\ (e = E_END \/ e = E_MISSING)
+       | _, _ => exists e, pre_items r a1 = IErr e /\ pre_err e
        end).
     { intros a1 z1 H1 H2. apply (IH (length r)); auto. cbn in Hlen; lia. eapply normal_tail; eauto. }
     destruct HR as (Rj & Rl & Rf & Re & Rx).
@@ -910,7 +917,7 @@ Proof.
       assert (IHs : forall a1 z1, Rz a1 z1 -> WFz z1 (length r) ->
          match zpre (toks r) z1, trailing_kw r with
          | Some z', false => exists a', match r with ISP _ :: r' => pre_items r' a1 | _ => pre_items r a1 end = IOk a' /\ Rz a' z' /\ WFz z' 0
-         | _, _ => exists e, match r with ISP _ :: r' => pre_items r' a1 | _ => pre_items r a1 end = IErr e /\ (e = E_END \/ e = E_MISSING)
+         | _, _ => exists e, match r with ISP _ :: r' => pre_items r' a1 | _ => pre_items r a1 end = IErr e /\ pre_err e
          end).
       { intros a1 z1 H1 H2. destruct r as [|[| |c|w2] r']; try (apply IHr; assumption).
         cbn [toks trailing_kw]. apply (IH (length r')); auto.
